@@ -141,8 +141,17 @@ void scenario(Ctx &c, bool close_scenario, bool ro_session, int kill_after, int 
     if (!want.empty()) for (FileMode m : {FileMode::ReadOnly, FileMode::ReadWrite}) {
         const char *mn = m == FileMode::ReadOnly ? "ReadOnly" : "ReadWrite";
         c.op(std::string("supervisor reopen ") + mn + (close_scenario ? " after close" : " after flush+kill"));
-        try { File f = File::open(path, m); Observer ob; std::string d = lines_diff(want, flatten(ob.file(f))); f.close();
-            c.check(d.empty(), std::string("C11/") + (close_scenario ? "close" : "flush-kill") + "/content-differs/" + mn, [&] { return d; }); c.count("nodes_compared", (long)want.size()); }
+        try { File f = File::open(path, m); Observer ob; std::string d = lines_diff(want, flatten(ob.file(f)));
+            c.check(d.empty(), std::string("C11/") + (close_scenario ? "close" : "flush-kill") + "/content-differs/" + mn, [&] { return d; }); c.count("nodes_compared", (long)want.size());
+            // "can be reopened in any mode" includes going on working: the ReadWrite session allocates new objects, grows and flushes
+            if (m == FileMode::ReadWrite && d.empty()) { std::string scn = close_scenario ? "close" : "flush-kill"; c.op("supervisor continues writing " + scn);
+                try { Block nb = f.createBlock("written after the reopen", "t"); std::vector<double> v(300); for (size_t i = 0; i < v.size(); i++) v[i] = (double)i; for (int k = 0; k < 3; k++) { DataArray na = nb.createDataArray("late " + str(k), "t", DataType::Double, NDSize{(ndsize_t)v.size()}); na.setData(v); na.appendSetDimension(); } f.createSection("late section", "t").createProperty("late", Variant(1.5));
+                    if (f.blockCount() > 1) { Block ob0 = f.getBlock(0); if (ob0.dataArrayCount()) { DataArray x = ob0.getDataArray(0); NDSize e = x.dataExtent(); if (e.size() && e[0] < 4096) { e[0] += 5; x.dataExtent(e); } } }
+                    bool fl = f.flush(); c.check(fl, "C11/" + scn + "/continue-writing/flush-false", "flush() returned false in the session that continues after the reopen"); f.close();
+                    File f2 = File::open(path, FileMode::ReadOnly); bool ok = f2.hasBlock("written after the reopen") && f2.getBlock("written after the reopen").dataArrayCount() == 3; std::vector<double> back; if (ok) { f2.getBlock("written after the reopen").getDataArray("late 2").getData(back); ok = back == v; } f2.close();
+                    c.check(ok, "C11/" + scn + "/continue-writing/lost", "what the continuing session wrote is not in the file"); c.count("continued_sessions"); }
+                catch (std::exception &e) { c.check(false, "C11/" + scn + "/continue-writing/failed", std::string("the ReadWrite session that reopened the file could not go on writing: ") + e.what()); }
+            } else f.close(); }
         catch (std::exception &e) { c.check(false, std::string("C11/") + (close_scenario ? "close" : "flush-kill") + "/reopen-failed/" + mn, std::string("reopen from another process threw: ") + e.what()); }
     }
     if (close_scenario && alive) { char b = 1; ssize_t w = write(down[1], &b, 1); (void)w; wait_ticks(1); kill(pid, SIGKILL); int st; waitpid(pid, &st, 0); c.count("kills_after_close"); }
